@@ -1,8 +1,11 @@
 (* Correspondence cases for C15: a real pathManager with real path objects went through a history of
    configuration reloads / publishers arriving and leaving; after every step (and after every asynchronous
-   path.reloadConf had landed) the driver recorded the live paths. *)
+   path.reloadConf had landed) the driver recorded the live paths. A step may be a RACE: several reloads issued
+   back to back while the manager was busy and some path goroutines could not receive, then everything released;
+   the observation is taken once every hand-over has landed. The model is the delivery layer
+   (Model/C15_Delivery.v, in-order hand-overs, guarded idle close), drained after every step. *)
 From Coq Require Import List ZArith Bool String.
-Require Import MTX.Model.C14_PathConf MTX.Model.C15_PathMgr MTXGen.C15_HotFields.
+Require Import MTX.Model.C14_PathConf MTX.Model.C15_PathMgr MTX.Model.C15_Delivery MTXGen.C15_HotFields.
 Import ListNotations.
 Local Open Scope Z_scope.
 
@@ -13,7 +16,8 @@ Inductive res := RNone | RSome (key : str) (groups : list str).
    pa.matches, whether it is the same *path object as the path of that name before the step, resolution of its name *)
 Inductive pobs := PO (name confName : str) (conf : Z) (matches : list str) (kept : bool) (r : res).
 
-Inductive hop := HReload (nc : list (str * Z)) | HCreate (n : str) | HLeave (n : str).
+Inductive hop := HReload (nc : list (str * Z)) | HCreate (n : str) | HLeave (n : str)
+                 | HRaced (ncs : list (list (str * Z))).   (* reloads issued back to back, received later *)
 
 (* before_res: for every path live before the step, the resolution of its name under the configuration in force
    after the step; after: the live paths after the step, sorted by name *)
@@ -71,12 +75,14 @@ Fixpoint ins_path (p : lpath) (l : list lpath) : list lpath :=
 Definition sort_paths (l : list lpath) : list lpath := fold_right ins_path [] l.
 
 Definition path_matches_obs (tbl : list (Z * list (Z * Z))) (m : str -> str -> option (list str))
-           (prev s : state) (p : lpath) (o : pobs) : bool :=
+           (prev s : xstate) (x : xpath) (o : pobs) : bool :=
   let 'PO name cn cid mt kept r := o in
-  str_eqb (p_name p) name && str_eqb (p_confName p) cn && conf_eqb (p_conf p) (conf_of tbl cid)
-  && strs_eqb (p_matches p) mt
-  && Bool.eqb kept (existsb (fun q => p_gen q =? p_gen p) (st_paths prev))
-  && res_eqb (res_of (find m (st_confs s) name)) r.
+  let p := x_p x in
+  str_eqb (p_name p) name && str_eqb (p_confName p) cn
+  && conf_eqb (x_conf x) (conf_of tbl cid)      (* what the path goroutine runs with *)
+  && strs_eqb (x_matches x) mt
+  && Bool.eqb kept (existsb (fun q => p_gen (x_p q) =? p_gen p) (xs_paths prev))
+  && res_eqb (res_of (find m (xs_confs s) name)) r.
 
 Fixpoint all2 {A B} (f : A -> B -> bool) (a : list A) (b : list B) : bool :=
   match a, b with
@@ -85,24 +91,35 @@ Fixpoint all2 {A B} (f : A -> B -> bool) (a : list A) (b : list B) : bool :=
   | _, _ => false
   end.
 
-Definition state_matches tbl m (prev s : state) (obs : list pobs) : bool :=
-  negb (st_crashed s) && all2 (path_matches_obs tbl m prev s) (sort_paths (st_paths s)) obs.
+Fixpoint ins_xpath (x : xpath) (l : list xpath) : list xpath :=
+  match l with
+  | [] => [x]
+  | q :: r => if str_ltb (p_name (x_p x)) (p_name (x_p q)) then x :: q :: r else q :: ins_xpath x r
+  end.
+Definition sort_xpaths (l : list xpath) : list xpath := fold_right ins_xpath [] l.
 
-Definition op_of tbl (o : hop) : op :=
+Definition state_matches tbl m (prev s : xstate) (obs : list pobs) : bool :=
+  negb (xs_crashed s) && quiet s && all2 (path_matches_obs tbl m prev s) (sort_xpaths (xs_paths s)) obs.
+
+Definition confs_of tbl (nc : list (str * Z)) : list (str * conf) := map (fun e => (fst e, conf_of tbl (snd e))) nc.
+
+(* one observed step: the operation, then every pending hand-over lands, oldest first *)
+Definition hstep_model tbl m (s : xstate) (o : hop) : xstate :=
   match o with
-  | HReload nc => Reload (map (fun e => (fst e, conf_of tbl (snd e))) nc)
-  | HCreate n => Create n
-  | HLeave n => Leave n
+  | HReload nc => drain (xreload m hot_mask s (confs_of tbl nc))
+  | HCreate n => xcreate m s n
+  | HLeave n => xleave true s n
+  | HRaced ncs => drain (fold_left (fun s' nc => xreload m hot_mask s' (confs_of tbl nc)) ncs s)
   end.
 
-Fixpoint steps_match tbl m (s : state) (steps : list hstep) : bool :=
+Fixpoint steps_match tbl m (s : xstate) (steps : list hstep) : bool :=
   match steps with
   | [] => true
   | HS o bres after :: rest =>
-      let s' := step m hot_mask true s (op_of tbl o) in
+      let s' := hstep_model tbl m s o in
       state_matches tbl m s s' after
-      && forallb (fun e => res_eqb (res_of (find m (st_confs s') (fst e))) (snd e)) bres
-      && Nat.eqb (List.length bres) (List.length (st_paths s))
+      && forallb (fun e => res_eqb (res_of (find m (xs_confs s') (fst e))) (snd e)) bres
+      && Nat.eqb (List.length bres) (List.length (xs_paths s))
       && steps_match tbl m s' rest
   end.
 
@@ -131,9 +148,9 @@ Definition mismatch (c : case) : bool :=
             && Bool.eqb can (can_update zero_vec (unit_vec idx)))
   | Hist oracle tbl init init_obs steps =>
       let m := oracle_get oracle in
-      let s0 := C15_PathMgr.init m hot_mask true (map (fun e => (fst e, conf_of tbl (snd e))) init) in
+      let s0 := xinit m hot_mask (confs_of tbl init) in
       negb (distinct_vectors (map (fun e => dense (snd e)) tbl)
-            && state_matches tbl m (ST [] [] 0 false) s0 init_obs
+            && state_matches tbl m (XST [] [] 0 false) s0 init_obs
             && steps_match tbl m s0 steps)
   end.
 
@@ -193,6 +210,16 @@ Definition kept_rule tbl (cur : list (str * Z)) (prev : list pobs) (o : hop) (br
                       | RNone => false
                       end in
         Bool.eqb (kept_after after name) hot_ok
+    | HRaced _ =>
+        (* several reloads: a path that survived them all resolves and differs on hot fields only *)
+        let hot_ok := match assoc_res bres name with
+                      | RSome k g => match assoc_id cur k with
+                                     | Some id1 => only_hot_diff (conf_of tbl cid0) (conf_of tbl id1)
+                                     | None => false
+                                     end
+                      | RNone => false
+                      end in
+        implb (kept_after after name) hot_ok
     | HCreate _ => kept_after after name
     | HLeave n => if str_eqb n name then true else kept_after after name
     end) prev
@@ -202,7 +229,7 @@ Fixpoint steps_ok tbl (cur : list (str * Z)) (prev : list pobs) (steps : list hs
   match steps with
   | [] => true
   | HS o bres after :: rest =>
-      let cur' := match o with HReload nc => nc | _ => cur end in
+      let cur' := match o with HReload nc => nc | HRaced ncs => last ncs cur | _ => cur end in
       reconciled cur' after && kept_rule tbl cur' prev o bres after && steps_ok tbl cur' after rest
   end.
 
